@@ -61,7 +61,7 @@ fn family_props(f: &str) -> &'static [&'static str] {
         "W" => &["C09", "C11", "C13", "C14"],
         "H" => &["C17"],
         "I" => &["C16"],
-        "K" => &["C19", "C16"],
+        "K" => &["C19", "C16", "C04"],
         _ => &[],
     }
 }
